@@ -18,6 +18,21 @@ from fractions import Fraction
 
 from common import q, lst, natlit, blit, optlit
 
+NAN_SENTINEL = "(123456789123456789 # 1)"   # stands for a missing (NaN) table cell in Coq literals: the model
+                                             # only copies metric values, so any value unequal to all others will do
+
+
+def qm(x):
+    """Coq literal of a metric value (NaN -> sentinel)"""
+    return NAN_SENTINEL if (isinstance(x, float) and math.isnan(x)) else q(x)
+
+
+def same_vals(a, b):
+    """equality of metric lists where NaN equals NaN (a missing cell is replayed as missing)"""
+    return len(a) == len(b) and all((x == y) or (isinstance(x, float) and isinstance(y, float) and math.isnan(x) and math.isnan(y))
+                                    for x, y in zip(a, b))
+
+
 EPS = 0.01      # literal of the monotonicity repair in simulated_tabular_backend.py
 NUDGE = 1e-3    # literal of _stop_or_pause_trial in simulator_backend.py
 
@@ -112,6 +127,15 @@ def gen_spec(rng, big=False):
                 rows.append([float(t), [float(m) for m in mets]])
             per_seed.append(rows)
         table.append(per_seed)
+    # missing cells (diverged runs): NaN in metric columns only; nan_cols says which metric columns may have them
+    nan_cols = rng.choice([[], [], [nmet - 1], list(range(nmet))])
+    for per_seed in table:
+        for rows in per_seed:
+            if nan_cols and rng.random() < 0.4:
+                f0 = rng.randrange(nfid)
+                for f in (range(f0, nfid) if rng.random() < 0.5 else [f0]):
+                    for k in nan_cols:
+                        rows[f][1][k] = float("nan")
     if rng.random() < 0.35:
         delays = dict(result=0.05, complete=0.05, stopc=0.05, start=0.05, stop=0.05)   # the defaults
     else:
@@ -119,7 +143,7 @@ def gen_spec(rng, big=False):
         r = rng.choice(dv)
         delays = dict(result=r, complete=r + rng.choice([0.0, 0.0, 0.125, 0.05, rng.uniform(0, 1)]),
                       stopc=rng.choice(dv), start=rng.choice(dv), stop=rng.choice(dv + [5.0, 20.0]))
-    return dict(nx=nx, ny=ny, nseeds=nseeds, nfid=nfid, nmet=nmet, style=style, table=table, delays=delays,
+    return dict(nx=nx, ny=ny, nseeds=nseeds, nfid=nfid, nmet=nmet, style=style, table=table, delays=delays, nan_cols=nan_cols,
                 sleep=rng.choice([0.1, 0.25, 0.5, 1.0, 0.0, 2.0]),
                 checkpointing=rng.random() < 0.7,
                 fixed_seed=rng.choice([None, None, rng.randrange(nseeds)]),
@@ -285,7 +309,7 @@ def coq_settings(spec):
 
 
 def coq_table(spec):
-    return lst([lst([lst(["mkRow %s %s" % (q(t), lst([q(x) for x in mets])) for t, mets in rows])
+    return lst([lst([lst(["mkRow %s %s" % (q(t), lst([qm(x) for x in mets])) for t, mets in rows])
                      for rows in per_seed]) for per_seed in spec["table"]])
 
 
@@ -322,7 +346,7 @@ def coq_obs(op):
     if k in ("pause", "stop", "sleep"):
         return "ONone %s" % c
     if k == "fetch":
-        rs = lst(["(%s, %s, %s, %s, %s)" % (natlit(t), natlit(l), q(e), lst([q(x) for x in ms]), q(ts))
+        rs = lst(["(%s, %s, %s, %s, %s)" % (natlit(t), natlit(l), q(e), lst([qm(x) for x in ms]), q(ts))
                   for t, l, e, ms, ts in op["results"]])
         sts = lst(["(%s, %s)" % (natlit(t), STATUS[s]) for t, s in op["statuses"]])
         return "OFetch %s %s %s" % (rs, sts, c)
@@ -333,7 +357,7 @@ def coq_obs(op):
 
 def coq_case(spec, log, seed_calls):
     draws = lst([natlit(s if s is not None else 0) for s in seed_calls])
-    ops = lst(["\n   (%s, %s)" % (coq_op(o), coq_obs(o)) for o in log])
+    ops = lst(["\n   (%s, %s)" % (coq_op(o), coq_obs(o)) for o in log if o["kind"] != "hov"])
     return "(%s,\n  %s,\n  %s,\n  %s)" % (coq_settings(spec), coq_table(spec), draws, ops)
 
 
@@ -515,17 +539,27 @@ def check_log(spec, log):
                 if spec["fixed_seed"] is not None:
                     cand = [spec["fixed_seed"]]
                 else:
-                    cand = [s for s in range(spec["nseeds"]) if spec["table"][idx][s][lvl - 1][1] == mets]
+                    cand = [s for s in range(spec["nseeds"]) if same_vals(spec["table"][idx][s][lvl - 1][1], mets)]
                 if t not in seed_of:
                     if len(cand) == 1:
                         seed_of[t] = cand[0]
+                    elif len(cand) > 1:
+                        pass            # rows of several seeds are all-missing at this level: seed not identifiable yet
                     else:
                         viol.append(("metric values are not a table row of this configuration and level: %s got %r" % (where, mets),
                                      dict(defect="values_not_in_table")))
                         continue
-                s = seed_of[t]
-                if spec["table"][idx][s][lvl - 1][1] != mets:
-                    other = [s2 for s2 in range(spec["nseeds"]) if spec["table"][idx][s2][lvl - 1][1] == mets]
+                if t in seed_of:
+                    s = seed_of[t]
+                else:
+                    # undetermined: the candidate whose elapsed time / time stamp fit the latest run, else the first
+                    def fits_s(s_):
+                        ridx, rmax = runs[t][-1]["cfg"]
+                        return ridx < ncfg and any(l2 == lvl and close(e2, el) and close(runs[t][-1]["te"] + e2 + d["result"], ts)
+                                                   for (l2, e2, m2) in expected_run(spec, ridx, s_, rmax, runs[t][-1]["rp"]))
+                    s = ([s_ for s_ in cand if fits_s(s_)] + cand)[0]
+                if not same_vals(spec["table"][idx][s][lvl - 1][1], mets):
+                    other = [s2 for s2 in range(spec["nseeds"]) if same_vals(spec["table"][idx][s2][lvl - 1][1], mets)]
                     viol.append(("metric values differ from the table row (config %d, seed %d, level %d): %s got %r%s"
                                  % (idx, s, lvl, where, mets, " = row of seed %d" % other[0] if other else ""),
                                  dict(defect="seed_changed" if other else "values_not_in_table")))
@@ -537,7 +571,7 @@ def check_log(spec, log):
                         return False
                     for (l2, e2, m2) in expected_run(spec, ridx, s, rmax, run["rp"]):
                         if l2 == lvl:
-                            return m2 == mets and close(e2, el) and close(run["te"] + e2 + d["result"], ts)
+                            return same_vals(m2, mets) and close(e2, el) and close(run["te"] + e2 + d["result"], ts)
                     return False
                 run = runs[t][-1]
                 if not fits(run):
